@@ -604,7 +604,7 @@ def run(ctx):
         if why:
             ctx.violation('Mosek dual form: ' + why, {'kind': 'mosek_dual', 'case': c, 'observed': io, 'model': mo,
                                                       'x0': [str(v) for v in x0], 'y0': [str(v) for v in y0]})
-    if (not ctx.lean.ok or ctx.disagreements) and not ctx.violations and not ctx.known_hits:
+    if (not ctx.lean.ok or ctx.disagreements) and not ctx.violations:
         common.broken_report(ctx, 'cone-membership sampling and weak-duality oracles found no failing input among %d cases'
                              % ctx.evaluations)
     return ctx.finish(
